@@ -60,6 +60,12 @@ def evaluate(seed, tier, props_override=None):
         os.makedirs(tmpd)
         # demo on the unchanged tree must pass
         dc = demo_cmd(seed)
+        def put_demo():
+            # some run.txt files give the copy step only as a comment: place the demonstration files ourselves
+            for f in os.listdir(seed):
+                if f.startswith("seed_demo") and f.endswith(".rs"):
+                    shutil.copy(os.path.join(seed, f), os.path.join(repo, "tests", f))
+        put_demo()
         rc, out = sh(dc, cwd=repo, env={"TMPDIR": tmpd}, timeout=1800)
         res["demo_passes_unchanged"] = rc == 0
         if rc != 0:
@@ -76,8 +82,9 @@ def evaluate(seed, tier, props_override=None):
         m = re.search(r"(\d+) tests run: (\d+) passed", out)
         res["suite"] = m.group(0) if m else out[-200:]
         res["suite_passes"] = bool(m and m.group(1) == m.group(2))
+        put_demo()
         rc, out = sh(dc, cwd=repo, env={"TMPDIR": tmpd}, timeout=1800)
-        res["demo_fails_with_change"] = rc != 0
+        res["demo_fails_with_change"] = rc != 0 and "no test target" not in out
         # remove the demo file from tests/ so that it is not part of the tree the checks see
         rm_demo()
         shutil.rmtree(os.path.join(repo, "target"), ignore_errors=True)
